@@ -184,6 +184,7 @@ struct Run {
     log.push_back("-- clear() of every document; failures off --");
     for (int i = 0; i < 25 && !failed; i++) {
       Op o = gen_op(r, h2, m);
+      adapt_op(o);
       if (!step(o)) break;
       for (size_t d = 0; d < x.docs.size(); d++) if (x.docs[d]->overflowed()) { viol("overflow-after-recovery", "doc" + std::to_string(d) + " overflowed() without any allocation failure after clear()"); break; }
     }
@@ -208,6 +209,7 @@ static uint64_t run_history(Ctx& c, uint64_t index, const Schedule& s, int steps
   arm(run.al(), s, upto);
   for (int i = 0; i < steps; i++) {
     Op o = gen_op(run.r, run.ho, run.m);
+    adapt_op(o);
     if (!run.step(o)) break;
   }
   uint64_t n = run.al().failable_calls;
